@@ -101,7 +101,7 @@ type held struct {
 // hold starts a request whose relevant attempt parks at the upstream, and returns once the upstream
 // has seen `attempts` attempts of it (= it was admitted) or the client got an answer first.
 func (r *rig) holdOne(tok string, plan []Attempt, attempts int) (h *held, admitted bool, early outcome, inconclusive bool) {
-	r.plans.Store(tok, &ReqPlan{Tok: tok, Attempts: plan})
+	r.addPlan(&ReqPlan{Tok: tok, Attempts: plan})
 	h = &held{tok: tok, done: make(chan outcome, 1)}
 	go func() { h.done <- r.probeOnce(tok) }()
 	deadline := time.Now().Add(clientWait)
@@ -177,7 +177,7 @@ func runThresh(t ev.TB, part string, c *Thresh) (classes []string, concluded boo
 	// ---- warm-up history, then back to idle
 	if len(c.Warm) > 0 {
 		for i := range c.Warm {
-			r.plans.Store(c.Warm[i].Reqs[0].Tok, &c.Warm[i].Reqs[0])
+			r.addPlan(&c.Warm[i].Reqs[0])
 		}
 		br := r.execConns(c.Warm)
 		if br == nil || atomic.LoadInt32(&br.dialFail) > 0 {
@@ -275,7 +275,7 @@ func runThresh(t ev.TB, part string, c *Thresh) (classes []string, concluded boo
 		if c.Proto != "Http1" {
 			errSt = 2
 		}
-		r.plans.Store(xtok, &ReqPlan{Tok: xtok, Attempts: []Attempt{{Kind: "err", Status: errSt}}})
+		r.addPlan(&ReqPlan{Tok: xtok, Attempts: []Attempt{{Kind: "err", Status: errSt}}})
 	}
 	during := r.observe()
 	o := r.probeOnce(xtok)
